@@ -203,13 +203,32 @@ def add_encodings(case, rng):
     return case
 
 
+def special_blocks(case, rng):
+    """aim some whole-block deletions at blocks that a module-level table names (exception handlers, DT_INIT /
+    DT_FINI, the entry point): those tables must follow or drop the block"""
+    named = list(case.get("safeseh", [])) + [case[k] for k in ("init", "fini", "entry") if case.get(k) is not None]
+    if not named or rng.random() < 0.3:
+        return case
+    touched = {e["block"] for e in case["edits"]}
+    for i in named:
+        if i in touched or rng.random() < 0.3:
+            continue
+        d = case["text"][i]
+        e = {"op": "delete", "block": i, "off": 0, "len": emodify.block_size(d)}
+        if rng.random() < 0.3:
+            e["proxy"] = True
+        case["edits"].append(e)
+        touched.add(i)
+    return case
+
+
 def run(ctx):
     pending = []
     for c in LE.load_corpus():
         ctx.count("corpus")
         check_case(ctx, c, pending)
     for _ in range(ctx.budget(500, 12000)):
-        check_case(ctx, add_encodings(emodify.gen_case(ctx.rng), ctx.rng), pending)
+        check_case(ctx, special_blocks(add_encodings(emodify.gen_case(ctx.rng), ctx.rng), ctx.rng), pending)
         if len(pending) >= 300:
             flush(ctx, pending)
     flush(ctx, pending)
